@@ -81,6 +81,100 @@ Proof.
       * destruct (eqb x y); cbn [andb]; [apply IH; cbn in Hc; lia|apply prob_false].
 Qed.
 
+(* Marginals of a collection of independent draws: one position follows the element law, two different
+   positions are independent.  (How long genomes - far too many children to tabulate - are compared with
+   the code: per-position and per-pair frequencies.) *)
+Section Marg.
+Context {A : Type} (g : dist A) (d : A) (Hmass : mass g == 1).
+
+Lemma mass_collection n : mass (collection n g) == 1.
+Proof. apply collection_mass. exact Hmass. Qed.
+
+Lemma prob_const_true B (dd : dist B) : prob dd (fun _ => true) == mass dd.
+Proof. reflexivity. Qed.
+
+Lemma collection_step n (P : list A -> bool) :
+  prob (collection (S n) g) P == expect g (fun x => prob (collection n g) (fun r => P (x :: r))).
+Proof.
+  cbn [collection]. rewrite prob_bind. apply expect_ext. intros x. apply prob_bind_ret_cons.
+Qed.
+
+Theorem collection_marginal n i (P : A -> bool) : (i < n)%nat ->
+  prob (collection n g) (fun l => P (nth i l d)) == prob g P.
+Proof.
+  revert i. induction n as [|n IH]; intros i Hi; [lia|].
+  rewrite collection_step. destruct i as [|i]; cbn [nth].
+  - rewrite (expect_ext _ _ _ (fun x => (if P x then 1 else 0) * 1)).
+    + rewrite (expect_ext _ _ _ (fun x => if P x then 1 else 0)) by (intros; ring). now rewrite <- prob_as_expect.
+    + intros x. destruct (P x).
+      * rewrite prob_const_true, mass_collection. ring.
+      * rewrite prob_false. ring.
+  - rewrite (expect_ext _ _ _ (fun _ => prob g P)) by (intros x; apply IH; lia).
+    rewrite expect_const, Hmass. ring.
+Qed.
+
+Theorem collection_pair_marginal n i j (P Q : A -> bool) : (i < j)%nat -> (j < n)%nat ->
+  prob (collection n g) (fun l => P (nth i l d) && Q (nth j l d)) == prob g P * prob g Q.
+Proof.
+  revert i j. induction n as [|n IH]; intros i j Hij Hj; [lia|].
+  rewrite collection_step. destruct j as [|j]; [lia|]. destruct i as [|i]; cbn [nth].
+  - rewrite (expect_ext _ _ _ (fun x => (if P x then 1 else 0) * prob g Q)).
+    + rewrite (expect_ext _ _ _ (fun x => prob g Q * (if P x then 1 else 0))) by (intros; ring).
+      rewrite expect_scale, <- prob_as_expect. ring.
+    + intros x. destruct (P x); cbn [andb].
+      * rewrite (collection_marginal n j Q) by lia. ring.
+      * rewrite prob_false. ring.
+  - rewrite (expect_ext _ _ _ (fun _ => prob g P * prob g Q)) by (intros x; apply IH; lia).
+    rewrite expect_const, Hmass. ring.
+Qed.
+End Marg.
+
+(* marginals of bit-flip mutation on genomes of any length: the flip at one position has probability r,
+   the flips at two different positions are independent *)
+Definition bern (r : Q) (a : bool) : Q := if a then r else 1 - r.
+Definition flipped (g c : list bool) (k : nat) : bool := xorb (nth k c false) (nth k g false).
+
+
+Lemma with_rate_step r b t (P : list bool -> bool) :
+  prob (with_rate r (b :: t)) P ==
+  r * prob (with_rate r t) (fun t' => P (negb b :: t')) + (1 - r) * prob (with_rate r t) (fun t' => P (b :: t')).
+Proof.
+  cbn [with_rate]. rewrite prob_bind. cbn [bernoulli expect].
+  assert (S : forall v, prob (dbind (with_rate r t) (fun t' => dret (v :: t'))) P == prob (with_rate r t) (fun t' => P (v :: t'))).
+  { intros v. rewrite prob_bind, prob_as_expect. apply expect_ext. intros t'. rewrite prob_ret. reflexivity. }
+  rewrite !S. ring.
+Qed.
+
+Theorem flip_marginal r g i a : (i < length g)%nat ->
+  prob (with_rate r g) (fun c => Bool.eqb (flipped g c i) a) == bern r a.
+Proof.
+  revert i. induction g as [|b t IH]; intros i Hi; [cbn in Hi; lia|].
+  rewrite with_rate_step. destruct i as [|i]; unfold flipped; cbn [nth].
+  - rewrite (prob_ext _ _ _ (fun _ => Bool.eqb true a)) by (intros; destruct b; reflexivity).
+    rewrite (prob_ext _ _ (fun t' => Bool.eqb (xorb b b) a) (fun _ => Bool.eqb false a)) by (intros; destruct b; reflexivity).
+    destruct a; cbn [Bool.eqb bern]; rewrite ?prob_false; change (prob (with_rate r t) (fun _ => true)) with (mass (with_rate r t));
+      rewrite with_rate_mass; ring.
+  - fold (flipped t). cbn in Hi.
+    assert (E : prob (with_rate r t) (fun t' => Bool.eqb (xorb (nth i t' false) (nth i t false)) a) == bern r a)
+      by (apply (IH i); lia).
+    unfold flipped in E. rewrite E. ring.
+Qed.
+
+Theorem flip_pair_marginal r g i j a b : (i < j)%nat -> (j < length g)%nat ->
+  prob (with_rate r g) (fun c => Bool.eqb (flipped g c i) a && Bool.eqb (flipped g c j) b) == bern r a * bern r b.
+Proof.
+  revert i j. induction g as [|x t IH]; intros i j Hij Hj; [cbn in Hj; lia|].
+  rewrite with_rate_step. destruct j as [|j]; [lia|]. cbn in Hj.
+  destruct i as [|i]; unfold flipped; cbn [nth].
+  - pose proof (flip_marginal r t j b ltac:(lia)) as M. unfold flipped in M.
+    rewrite (prob_ext _ _ _ (fun t' => if Bool.eqb true a then Bool.eqb (xorb (nth j t' false) (nth j t false)) b else false))
+      by (intros; destruct x; cbn; destruct (Bool.eqb true a); reflexivity).
+    rewrite (prob_ext _ _ (fun t' => Bool.eqb (xorb x x) a && Bool.eqb (xorb (nth j t' false) (nth j t false)) b) (fun t' => if Bool.eqb false a then Bool.eqb (xorb (nth j t' false) (nth j t false)) b else false))
+      by (intros; destruct x; cbn; destruct (Bool.eqb false a); reflexivity).
+    destruct a; cbn [Bool.eqb bern]; rewrite ?prob_false, ?M; ring.
+  - pose proof (IH i j ltac:(lia) ltac:(lia)) as M. unfold flipped in M. rewrite !M. ring.
+Qed.
+
 (* random bitstrings: n independent bits, each set with probability p *)
 Definition random_bits (p : Q) (n : nat) : dist (list bool) := collection n (bernoulli p).
 Fixpoint bits_law_of (p : Q) (n : nat) (c : list bool) : Q :=
@@ -224,4 +318,20 @@ Proof.
   intros Hl. rewrite gene_gen_law, prob_uniform_count. unfold default_close. rewrite qnat_S.
   assert (0 < qnat (length l)) by (apply qnat_pos; destruct l; [contradiction|cbn; lia]).
   field. lra.
+Qed.
+
+(* pair marginals of random bitstrings and of uniform-crossover masks (any length) *)
+Lemma mass_bernoulli' p : mass (bernoulli p) == 1.
+Proof. apply mass_bernoulli. Qed.
+Theorem random_bits_pair p n i j a b : (i < j)%nat -> (j < n)%nat ->
+  prob (random_bits p n) (fun l => Bool.eqb (nth i l false) a && Bool.eqb (nth j l false) b) == bern p a * bern p b.
+Proof.
+  intros Hij Hj. unfold random_bits.
+  rewrite (collection_pair_marginal (bernoulli p) false (mass_bernoulli' p) n i j (fun x => Bool.eqb x a) (fun x => Bool.eqb x b) Hij Hj).
+  unfold bernoulli, bern. cbn [prob]. destruct a, b; cbn [Bool.eqb]; ring.
+Qed.
+Corollary uniform_xo_pair n i j a b : (i < j)%nat -> (j < n)%nat ->
+  prob (uniform_xo_masks n) (fun l => Bool.eqb (nth i l false) a && Bool.eqb (nth j l false) b) == 1 # 4.
+Proof.
+  intros Hij Hj. unfold uniform_xo_masks. rewrite random_bits_pair by assumption. unfold bern. destruct a, b; reflexivity.
 Qed.
